@@ -215,6 +215,15 @@ func (publisher *Publisher) Places() map[string]*place {
 
 		// Get all of the unique place names.
 		for placeTag, node := range publisher.doc.Places() {
+			// When living individuals are hidden nothing about them is
+			// published, not even that the places of their events exist.
+			if publisher.options.LivingVisibility == LivingVisibilityHide {
+				individual := individualForNode(publisher.doc, node)
+				if individual != nil && individual.IsLiving() {
+					continue
+				}
+			}
+
 			prettyName := prettyPlaceName(placeTag.Value())
 
 			if prettyName == "" {
